@@ -120,6 +120,24 @@ class C08(core.Prop):
                         ["write", 1, dev["name"], vn, [[names[i], [[], ""]]]]]
             cases.append({"devices": [dev], "clients": clients, "ops": ops, "seed": k, "sizes": [5, 0, 0, 7, 0]})
             k += 1
+        # a connection changes its mind: what it receives follows the policy it set LAST (Also -> Never, Only -> Never, Never -> Also ...)
+        for rep in range(4 if tier == "quick" else 40):
+            dev = all_on(drvgen.gen_definition(rng, "DEV0", depth=1, kinds=["BLOB", "Text"]))
+            vecs = drvgen.all_vectors(dev)
+            bl = [vn for vn in sorted(vecs) if vecs[vn][1]["kind"] == "BLOB"]
+            if not bl:
+                continue
+            vn = rng.choice(bl)
+            clients = [{"kind": "net", "up": rng.choice(sysgen.FRAGS), "down": rng.choice(sysgen.FRAGS)},
+                       {"kind": "net", "up": rng.choice(sysgen.FRAGS), "down": rng.choice(sysgen.FRAGS)}]
+            ops = [["handshake", 0], ["handshake", 1]]
+            seq = rng.choice([["Also", "Never", "Also"], ["Only", "Never", "Only"], ["Also", "Only", "Never"], ["Never", "Also", "Never"]])
+            conn = "ctl" if rep % 2 == 0 else "blob"
+            for pol in seq:
+                ops.append(["enable", 1, conn, dev["name"], pol])
+                ops.append(["drv", 0, ["assign", vn, 0, [payload(rng, rng.choice([3, 40, 300])), ".p%s" % pol]]])
+            cases.append({"devices": [dev], "clients": clients, "ops": ops, "seed": k, "sizes": [3, 40, 300]})
+            k += 1
         # the last read of a message returns a full 1024 bytes (nothing in the read size says "more is coming")
         for n in ([760, 1500, 3000] if tier == "quick" else [700, 760, 1000, 1500, 2200, 3000, 5000, 20000]):
             dev = all_on(drvgen.gen_definition(rng, "DEV0", depth=1, kinds=["BLOB", "Text"]))
